@@ -1,6 +1,6 @@
 import Amgcl.Model.Schedule
 /-!
-# Steps 2–4 of the level-scheduling constructors, literally (C09)
+# The level-scheduling constructors statement by statement: `nlev` of step 1, steps 2–4 (C09)
 
 `gauss_seidel.hpp` (`parallel_sweep` constructor, "2. reorder matrix rows", "3. Organize matrix rows into tasks",
 "4. reorganize matrix data") and `ilu_solve.hpp` (`sptr_solve` constructor) — the same text in both files:
@@ -27,11 +27,39 @@ for every `sched_gs`/`sched_ilu` case, so the differential run ties them to the 
 -/
 namespace Amgcl.Sched
 
+/-! ## step 1 with the accumulator `nlev` -/
+
+/-- one iteration of the outer loop of step 1, including `nlev = std::max(nlev, l+1);` (`levelStep` of `Schedule.lean`
+plus the accumulator) -/
+def levelStepN (take raise : Nat → Nat → Bool) (A : Pattern) (st : Array Nat × Nat) (i : Nat) : Array Nat × Nat :=
+  let row := A.getD i []
+  let l := rowLevel take st.1 i row
+  (raiseRow raise i l row (st.1.setIfInBounds i l), max st.2 (l + 1))
+
+/-- step 1 of both constructors: `(level, nlev)` -/
+def levelsGenN (take raise : Nat → Nat → Bool) (fwd : Bool) (A : Pattern) : Array Nat × Nat :=
+  (rowOrder fwd A.size).foldl (levelStepN take raise A) (Array.replicate A.size 0, 0)
+
+/-- `sptr_solve<lower>` -/
+def iluLevelsN (lower : Bool) (A : Pattern) : Array Nat × Nat :=
+  levelsGenN (fun _ _ => true) (fun _ _ => false) lower A
+/-- `parallel_sweep<forward>`, unpatched tree -/
+def gsLevelsAsIsN (fwd : Bool) (A : Pattern) : Array Nat × Nat :=
+  levelsGenN (before fwd) (fun _ _ => false) fwd A
+/-- `parallel_sweep<forward>` with `fix_gs_parallel_levels.patch` -/
+def gsLevelsN (fwd : Bool) (A : Pattern) : Array Nat × Nat :=
+  levelsGenN (before fwd) (fun c i => before fwd i c) fwd A
+
+/-! ## step 2: counting sort -/
+
 /-- `std::vector<ptrdiff_t> start(nlev+1, 0); for(i = 0; i < n; ++i) ++start[level[i]+1];` -/
-def csHist (level : Array Nat) : Array Nat :=
+def csHistN (level : Array Nat) (nl : Nat) : Array Nat :=
   (List.range level.size).foldl
     (fun s i => s.setIfInBounds (level.getD i 0 + 1) (s.getD (level.getD i 0 + 1) 0 + 1))
-    (Array.replicate (nlev level + 1) 0)
+    (Array.replicate (nl + 1) 0)
+
+/-- … with `nlev` recomputed from the level vector (the form `countingSort` uses) -/
+def csHist (level : Array Nat) : Array Nat := csHistN level (nlev level)
 
 /-- `std::partial_sum(a.begin(), a.end(), a.begin())`: `acc = acc + *first; *result = acc;` element by element,
 the output overwriting the input -/
@@ -63,12 +91,17 @@ def csRotateLit (st : Array Nat) : Array Nat := (stdRotate st (st.size - 1)).set
 (and is overwritten by 0), the others move up by one -/
 def csRotate (st : Array Nat) (nl : Nat) : List Nat := 0 :: st.toList.take nl
 
-/-- step 2 of both constructors, statement by statement; returns `(order, start)` -/
-def countingSortLit (level : Array Nat) : Array Nat × Array Nat :=
-  let start := csHist level
+/-- step 2 of both constructors, statement by statement, from the `level` and `nlev` of step 1;
+returns `(order, start)` -/
+def countingSortLitN (level : Array Nat) (nl : Nat) : Array Nat × Array Nat :=
+  let start := csHistN level nl
   let start := partialSumInPlace start
   let os := csScatter level start
   (os.1, csRotateLit os.2)
+
+def countingSortLit (level : Array Nat) : Array Nat × Array Nat := countingSortLitN level (nlev level)
+
+/-! ## steps 3 and 4: tasks -/
 
 /-- step 3, literally: `tasks[tid][lev] = task(beg, end)`, positions into `order` -/
 def tasksLit (start : Array Nat) (nl nt : Nat) : List (List (Nat × Nat)) :=
@@ -85,8 +118,13 @@ def taskRowsLit (order : Array Nat) (t : Nat × Nat) : List Nat :=
 
 /-- steps 2–4 as the code runs them: `[tid][lev] ↦` the rows the thread `tid` executes in level `lev`
 (the concatenation over `lev` is the thread's `ord[tid]`) -/
-def scheduleLit (level : Array Nat) (nt : Nat) : List (List (List Nat)) :=
-  let cs := countingSortLit level
-  (tasksLit cs.2 (nlev level) nt).map fun t => t.map (taskRowsLit cs.1)
+def scheduleLitN (level : Array Nat) (nl nt : Nat) : List (List (List Nat)) :=
+  let cs := countingSortLitN level nl
+  (tasksLit cs.2 nl nt).map fun t => t.map (taskRowsLit cs.1)
+
+def scheduleLit (level : Array Nat) (nt : Nat) : List (List (List Nat)) := scheduleLitN level (nlev level) nt
+
+/-- the constructors from the pattern to the task table: step 1 (`level`, `nlev`), then steps 2–4 -/
+def constructorLit (ln : Array Nat × Nat) (nt : Nat) : List (List (List Nat)) := scheduleLitN ln.1 ln.2 nt
 
 end Amgcl.Sched
